@@ -10,7 +10,11 @@ package realm
 // goroutine that plays QUIC (reads the wrapper and records what it gets), and two
 // concurrent Respond calls for attempts X and Y with unrelated metadata.
 // Script per attempt: its peer sends hello / ack at a chosen instant, or nothing (timeout),
-// or the caller cancels. Noise packets (QUIC-like, near-miss punch of X, punch of a foreign
+// or the caller cancels. In most cases a second Respond with the SAME attempt id but OTHER
+// metadata is issued while the first is running (it must be refused and must change
+// nothing: packets of the refused metadata always reach the reader, the running attempt
+// keeps its own metadata in the registry and is still completed by its own peer's packet
+// only). Noise packets (QUIC-like, near-miss punch of X, punch of a foreign
 // attempt) are injected throughout.
 //
 // Oracles:
@@ -197,6 +201,38 @@ func vfC20ServerCase(t *testing.T, k *vfKit, caseID string, r *rand.Rand) {
 			}
 		}
 	}
+	// duplicate-id Respond with other metadata while attempt dupOf is running
+	dupOf, dupMeta := -1, vfC20RandMeta(r)
+	var dupAt time.Duration // absolute
+	if r.Intn(10) < 8 {
+		i := r.Intn(2)
+		pl := plans[i]
+		window := pl.Timeout
+		if pl.Mode != "timeout" {
+			window = pl.At
+		}
+		if window >= 2*time.Millisecond {
+			dupOf = i
+			dupAt = pl.StartAt + time.Duration(1+r.Intn(int(window/time.Millisecond)-1))*time.Millisecond
+			end := pl.StartAt + window
+			// packets under the refused metadata: while the attempt still runs, and after it ended
+			for j := 0; j < 2+r.Intn(3); j++ {
+				at := dupAt + time.Duration(r.Intn(int((end-dupAt)/time.Millisecond)+1))*time.Millisecond
+				if j == 0 {
+					at = end + time.Duration(1+r.Intn(20))*time.Millisecond
+				}
+				seq++
+				var from net.Addr
+				if r.Intn(2) == 0 {
+					from = udpAddrFromAddrPort(peers[i]) // even from the running attempt's own peer
+				}
+				typ := byte(1 + r.Intn(2))
+				data := vfC20RefEncodeValid(dupMeta, typ, vfC20Tag(seq), vfC20RandBytes(r, vfC20PadLen(r)))
+				tl = append(tl, inj{at, mk("punch-refused-duplicate", data, from), true, -1})
+			}
+			rep["duplicate"] = map[string]any{"of": pl.ID, "at": dupAt, "metadata": dupMeta.String()}
+		}
+	}
 	// stable order by time (ties keep construction order)
 	for i := 1; i < len(tl); i++ {
 		for j := i; j > 0 && tl[j].at < tl[j-1].at; j-- {
@@ -219,6 +255,26 @@ func vfC20ServerCase(t *testing.T, k *vfKit, caseID string, r *rand.Rand) {
 			o := outs[i]
 			o.res, o.err, o.at, o.done = res, err, time.Since(start), true
 		}(i)
+	}
+
+	type dupOutT struct {
+		err       error
+		at        time.Duration
+		done      bool
+		regAfter  PunchMetadata
+		regExists bool
+	}
+	dupOut := &dupOutT{}
+	if dupOf >= 0 {
+		go func() {
+			time.Sleep(dupAt)
+			pl := plans[dupOf]
+			_, err := sp.Respond(ctx, pl.ID, local, []netip.AddrPort{peers[dupOf]}, dupMeta.PM(), PunchConfig{Timeout: pl.Timeout, Interval: pl.Every})
+			dupOut.err, dupOut.at, dupOut.done = err, time.Since(start), true
+			w.mu.RLock()
+			dupOut.regAfter, dupOut.regExists = w.attempts[pl.ID]
+			w.mu.RUnlock()
+		}()
 	}
 
 	var expectPass []*vfC20Pkt
@@ -297,6 +353,23 @@ func vfC20ServerCase(t *testing.T, k *vfKit, caseID string, r *rand.Rand) {
 			vfC20V(k, "realm:attempt-left-registered", rep, "attempt %s is still in the registry after Respond returned", pl.ID)
 		}
 	}
+	if dupOf >= 0 {
+		pl := plans[dupOf]
+		k.Count("ev_duplicate_responds", 1)
+		switch {
+		case !dupOut.done:
+			vfC20V(k, "realm:duplicate-respond-hangs", rep, "Respond(%s) with other metadata, issued while the attempt was running, had not returned at the end of the case", pl.ID)
+		case dupOut.err == nil || !errors.Is(dupOut.err, ErrInvalidPunchAttempt) || dupOut.at != dupAt:
+			vfC20V(k, "realm:duplicate-respond-not-refused", rep, "Respond(%s) with other metadata while the attempt was running returned %v at %v (issued at %v); want an immediate ErrInvalidPunchAttempt", pl.ID, dupOut.err, dupOut.at, dupAt)
+		default:
+			k.Count("ev_duplicate_refused", 1)
+			if !dupOut.regExists || dupOut.regAfter != metas[dupOf].PM() {
+				vfC20V(k, "realm:refused-duplicate-changed-registry", rep,
+					"after the duplicate Respond(%s) was refused the demux holds (registered=%v) nonce=%s obfs=%s for that id; the running attempt's metadata is %s — a refused call never became a registered attempt",
+					pl.ID, dupOut.regExists, dupOut.regAfter.Nonce, dupOut.regAfter.Obfs, metas[dupOf])
+			}
+		}
+	}
 	// every write is a valid punch packet of one of the two attempts, to that attempt's peer
 	in.mu.Lock()
 	for _, s := range in.sent {
@@ -327,6 +400,10 @@ func vfC20ServerCase(t *testing.T, k *vfKit, caseID string, r *rand.Rand) {
 		if p.Kind == "punch-after-return" {
 			key = "realm:divert-after-remove"
 			what = "was sent after Respond had returned (attempt removed) and did not reach the reader"
+		}
+		if p.Kind == "punch-refused-duplicate" {
+			key = "realm:diverted-under-refused-metadata"
+			what = "is a punch packet under the metadata of a Respond call that was REFUSED as a duplicate (never a registered attempt) and did not reach the reader"
 		}
 		vfC20V(k, key, map[string]any{"case_id": caseID, "plans": plans, "packet": vfC20PktBrief(p)}, "packet #%d (%s) %s", p.Seq, p.Kind, what)
 		break
